@@ -60,3 +60,51 @@ pub mod plain {
         v.is_none()
     }
 }
+
+/// A three-state field type: `Keep` is the nil value (omitted where the format allows, written as
+/// `undefined` otherwise), `Clear` is a *non-nil* value that is written as CBOR null, `Set(n)` an
+/// unsigned integer.  A decoder that treats every null as "absent" confuses `Clear` with `Keep`.
+pub mod tri {
+    use minicbor::decode::{self, Decoder};
+    use minicbor::encode::{self, Encoder, Write};
+
+    #[derive(Debug, Clone, Copy, PartialEq, Eq, Default)]
+    pub enum Tri {
+        #[default]
+        Keep,
+        Clear,
+        Set(u8),
+    }
+
+    pub fn encode<Ctx, W: Write>(v: &Tri, e: &mut Encoder<W>, _: &mut Ctx) -> Result<(), encode::Error<W::Error>> {
+        match v {
+            Tri::Keep => e.undefined()?,
+            Tri::Clear => e.null()?,
+            Tri::Set(n) => e.u8(*n)?,
+        };
+        Ok(())
+    }
+
+    pub fn decode<'b, Ctx>(d: &mut Decoder<'b>, _: &mut Ctx) -> Result<Tri, decode::Error> {
+        match d.datatype()? {
+            minicbor::data::Type::Undefined => d.undefined().map(|_| Tri::Keep),
+            minicbor::data::Type::Null => d.null().map(|_| Tri::Clear),
+            _ => d.u8().map(Tri::Set),
+        }
+    }
+
+    pub fn is_nil(v: &Tri) -> bool {
+        *v == Tri::Keep
+    }
+
+    pub fn nil() -> Option<Tri> {
+        Some(Tri::Keep)
+    }
+
+    pub fn cbor_len<Ctx>(v: &Tri, _: &mut Ctx) -> usize {
+        match v {
+            Tri::Set(n) if *n >= 24 => 2,
+            _ => 1,
+        }
+    }
+}
